@@ -1,6 +1,7 @@
 """C04 — execution: field collection, value completion dispatch, error sites,
 request isolation (structural clauses only)."""
 import ast
+import re
 
 from .. import shapes, boolx
 from ..cfg import event_paths
@@ -37,10 +38,9 @@ def _table_check(expr, roles, want, vars_):
     return bad
 
 
-def check(prog, run):
-    # ---- K1 selection-kind exhaustiveness (whole package)
-    r = run.rule("K1", "every class test over elements of a selection list (loops, comprehensions, Selection-typed parameters) "
-                       "anywhere in the package covers Field, FragmentSpread and InlineFragment or ends in an explicit error", 3)
+def check_selection_dispatch(prog, run, rid="K1", floor=3):
+    r = run.rule(rid, "every class test over elements of a selection list (loops, comprehensions, Selection-typed parameters) "
+                      "anywhere in the package covers Field, FragmentSpread and InlineFragment or ends in an explicit error", floor)
     for s in shapes.selection_dispatch_sites(prog, prog.all_funcs()):
         run.looked_at(s.fi)
         r.instance("%s (%s over %s): %s default=%s" % (s.fi.key, s.kind, s.var, sorted(s.classes), s.default))
@@ -48,6 +48,11 @@ def check(prog, run):
         if missing and s.default is None:
             run.report(r, "%s:%s:selection-dispatch(%s)" % (s.fi.module.name, s.fi.qualname, s.kind), s.fi.where(s.node),
                        "selections of kind %s are silently ignored here" % sorted(missing))
+
+
+def check(prog, run):
+    # ---- K1 selection-kind exhaustiveness (whole package)
+    check_selection_dispatch(prog, run, "K1")
 
     # ---- K2 collect_fields filtering
     r = run.rule("K2", "collect_fields / collect_fields_untyped: a selection is skipped iff @skip/@include say so (fields), or "
@@ -381,6 +386,41 @@ def check(prog, run):
     r.instance("BlockingExecutor overrides complete_value: %s" % ("complete_value" in bx.methods))
     if "complete_value" in bx.methods:
         raise AnalysisError("C04.K3: BlockingExecutor now overrides complete_value; rule needs extending")
+
+    # ---- K7 resolve_type: the answer None means "use the value's class name", whoever gave the answer
+    r7 = run.rule("K7", "Executor.resolve_type, decided for (the abstract type has its own resolve_type / it has none) with the answer "
+                        "None: every execution returns (the schema's type named by) the value's class name - the fallback applies "
+                        "after a custom resolver that declines as well as after the default lookup of __typename__; with an answer "
+                        "that is not None the answer itself (looked up in the schema when it is a name) is returned", 4)
+    rt = prog.get_func(EXE, "Executor.resolve_type")
+    run.looked_at(rt)
+    for custom in (True, False):
+        for none_answer in (True, False):
+            def decide(t, custom=custom, none_answer=none_answer):
+                tt = t.replace(" ", "")
+                if re.match(r"^[\w.]+\.resolve_typeisNone$", tt):
+                    return not custom
+                if re.match(r"^\w+isNone$", tt):
+                    return none_answer
+                return None
+            try:
+                _ev, exits = boolx.walk_under(rt.node, decide)
+            except ValueError as e:
+                raise AnalysisError("C04.K7: %s" % e)
+            rets = [(st, " ".join(ast.unparse(boolx.path_expand(env.get(boolx.STMTS, ()), st, st.value,
+                                                                {k: v for k, v in env.items() if k not in boolx.META})).split()))
+                    for kind, st, env in exits if kind == "return" and st.value is not None]
+            shapes.require(bool(rets), "C04.K7: resolve_type has no returning execution for custom=%s" % custom)
+            r7.instance("custom resolver %s, answer %s: returns %s" % (custom, "None" if none_answer else "given", sorted({t for _s, t in rets})))
+            for st, txt in rets:
+                by_class = "__name__" in txt
+                if by_class != none_answer:
+                    run.report(r7, "%s:Executor.resolve_type:class-name-fallback(custom=%s,answer=%s)" % (EXE, custom, "None" if none_answer else "given"), rt.where(st),
+                               ("with %s and the answer None an execution returns `%s`: the value's class name is not tried, and the "
+                                "abstract value fails to resolve" if none_answer else
+                                "with %s and an answer that is not None an execution returns `%s`: the answer is replaced by the class name")
+                               % ("a custom resolve_type" if custom else "the default lookup", txt))
+                    break
 
     # ---- K4 error sites
     r = run.rule("K4", "field failures are recorded with (err, path, node) and yield None; a null in a non-null position "
